@@ -167,7 +167,7 @@ def scorer_transforms(spec, p, rng, tier):
     return ts
 
 
-def check_scorer(rec, spec, X, label, t, pp, cuts=None, record=True):
+def check_scorer(rec, spec, X, label, t, pp, cuts=None, record=True, batch=False):
     n, p = X.shape
     ident = list(range(p))
     cuts = all_cuts(spec["kind"], n, spec["m"]) if cuts is None else cuts
@@ -206,7 +206,9 @@ def check_scorer(rec, spec, X, label, t, pp, cuts=None, record=True):
         if not close(tran[i], want[i]):
             rec.violation(key, f"{spec['name']} on n={n},p={p}, transform {t}: cut {list(c)} scores {base[i].tolist()} on X but "
                           f"{'the mirrored cut ' + str(list(tcuts[i])) if t['type'] == 'reverse' else 'the same cut'} scores "
-                          f"{tran[i].tolist()} on the transformed X (expected {want[i].tolist()})", "C12.scorer", dict(inp, cuts=[list(c)]))
+                          f"{tran[i].tolist()} on the transformed X (expected {want[i].tolist()})"
+                          + (f" [evaluated in one call with {len(cuts)} cuts of pairwise distinct outer intervals]" if batch else ""),
+                          "C12.scorer", dict(inp, cuts=[list(x) for x in cuts] if batch else [list(c)], batch=batch))
             return
 
 
@@ -227,6 +229,15 @@ def scorer_level(rec, tier, seed):
                         if t["type"] == "perm" and spec["kind"] == "las" and n > 6 and tier == "quick" and t["perm"] != sorted(t["perm"], reverse=True):
                             continue                     # LocalAnomalyScore refits per cut: one permutation suffices in quick
                         check_scorer(rec, spec, X, label, t, pp)
+                        if t["type"] == "reverse" and spec["kind"] in ("change", "las"):
+                            # one call with pairwise DISTINCT outer intervals (increasing on X, hence decreasing once mirrored): the
+                            # complete enumeration above repeats every outer interval, which hides order-dependent batching
+                            seen, sub = set(), []
+                            for c in all_cuts(spec["kind"], n, spec["m"]):
+                                if (c[0], c[-1]) not in seen:
+                                    seen.add((c[0], c[-1]))
+                                    sub.append(c)
+                            check_scorer(rec, spec, X, label, t, pp, cuts=sub, record=False, batch=True)
                         if t["type"] != "perm" or t["perm"] == sorted(t["perm"], reverse=True):
                             # the same for data held as integers (counts): the statement is about the values, not their dtype;
                             # the shifted / scaled copy is a float array, the original an int64 one
@@ -603,7 +614,8 @@ def replay(inp, repo="/repo"):
     if inp["level"] == "scorer":
         pp = inp.get("pp") or make_pp(p, np.random.default_rng(0))
         spec = next(s for s in scorer_specs(p, pp) if s["name"] == inp["scorer"])
-        check_scorer(rec, spec, X, "replay", t, pp, cuts=[tuple(int(v) for v in c) for c in inp["cuts"]], record=False)
+        check_scorer(rec, spec, X, "replay", t, pp, cuts=[tuple(int(v) for v in c) for c in inp["cuts"]], record=False,
+                     batch=bool(inp.get("batch")))
     else:
         spec = {"detector": inp["detector"], "kwargs": inp["kwargs"], "sym": []}
         base = base_run(spec, X, 12345)
